@@ -161,10 +161,10 @@ PROPS = {
                            'C04_clamp_exact: the clamp lands exactly on the bound and yields no request without headroom. Tie: hist correspondence on resize calls (arguments) + monitor; awsops/fleetops sequences on one provider (removals whose termination AWS rejects, then a request up to the maximum the provider reports) with the provider\'s cached desired size compared and every request checked against the cloud maximum counted from the real desired size.',
                 level_note=LEVEL_NOTE),
     'C05': dict(level='proof', module='EscProofs.P.Rne',
-                streams=dict(quick=[('arith', ['-n', 40000, '-dir', '@ROOT/corpus/C05']), ('hist', ['-n', 300, '-scans', 10, '-focus', 'up']), ('hist', ['-n', 150, '-scans', 8, '-focus', 'rotate'])],
-                             thorough=[('arith', ['-n', 3000000, '-dir', '@ROOT/corpus/C05']), ('hist', ['-n', 15000, '-scans', 12, '-focus', 'up']), ('hist', ['-n', 5000, '-scans', 10, '-focus', 'rotate'])],
-                             search=[('arith', ['-n', 300000, '-dir', '@ROOT/corpus/C05']), ('hist', ['-n', 1500, '-scans', 12, '-focus', 'up']), ('hist', ['-n', 800, '-scans', 10, '-focus', 'rotate'])]),
-                aspects=['pct-kind', 'pct-bits', 'delta', 'delta-err', 'panic', 'hist:resize', 'hist:untaints'], monitors=['C05'],
+                streams=dict(quick=[('arith', ['-n', 40000, '-dir', '@ROOT/corpus/C05']), ('hist', ['-n', 300, '-scans', 10, '-focus', 'up']), ('hist', ['-n', 150, '-scans', 8, '-focus', 'rotate']), ('fleetops', ['-n', 96]), ('hist', ['-n', 8, '-scans', 6, '-focus', 'fleet'])],
+                             thorough=[('arith', ['-n', 3000000, '-dir', '@ROOT/corpus/C05']), ('hist', ['-n', 15000, '-scans', 12, '-focus', 'up']), ('hist', ['-n', 5000, '-scans', 10, '-focus', 'rotate']), ('fleetops', ['-n', 1600]), ('hist', ['-n', 200, '-scans', 8, '-focus', 'fleet'])],
+                             search=[('arith', ['-n', 300000, '-dir', '@ROOT/corpus/C05']), ('hist', ['-n', 1500, '-scans', 12, '-focus', 'up']), ('hist', ['-n', 800, '-scans', 10, '-focus', 'rotate']), ('fleetops', ['-n', 300])]),
+                aspects=['pct-kind', 'pct-bits', 'delta', 'delta-err', 'panic', 'hist:resize', 'hist:untaints', 'journal', 'outcome'], monitors=['C05'],
                 theorems=['Esc.P.C05_exact_formula', 'Esc.P.C05_ceil_sufficient_minimal', 'Esc.P.C05_delta_is_max', 'Esc.P.C05_from_zero_exact',
                           'Esc.P.C05_from_zero_no_cache', 'Esc.P.C05_float_short_witness',
                           'Esc.P.C05_float_error', 'Esc.P.C05_float_within_one', 'Esc.P.C05_from_zero_float_error', 'Esc.P.C05_from_zero_within_one',
